@@ -1,0 +1,14 @@
+//go:build verif
+
+package consoleui
+
+import "mltwist/internal/consoleui/internal/view"
+
+// VerifSuicScreen builds the view UI.Run prints for a mode: the view of the mode
+// above the command prompt (verification harness only, build tag verif).
+func VerifSuicScreen(m Mode) *view.Composite {
+	return view.NewComposite(m.View(), commandPrompt{})
+}
+
+// VerifSuicPrompt returns the command prompt view.
+func VerifSuicPrompt() view.View { return commandPrompt{} }
